@@ -211,8 +211,58 @@ Definition parse (s : ustr) : option pv :=
   | None => None
   end.
 
-(* load_metadata_from_file on a file holding b: json.load reads bytes, detects UTF-8 (the canonical text is ASCII) *)
-Definition load_bytes (b : bytes) : option pv := parse b.
+(* ---- json.load on a file opened in binary mode: json.loads(bytes) = detect_encoding, decode with 'surrogatepass', parse.
+   UTF-8 (with or without a byte-order mark) is modelled; the UTF-16/32 guesses of detect_encoding are Unmodelled. *)
+Definition is_cont (c : N) : bool := (128 <=? c) && (c <=? 191).
+
+(* CPython's UTF-8 decoder with the surrogatepass handler: shortest forms only, code points up to 0x10FFFF, and the
+   three-byte encodings of D800..DFFF are let through *)
+Fixpoint utf8_decode (b : bytes) : option ustr :=
+  match b with
+  | [] => Some []
+  | b0 :: r =>
+      if b0 <? 128 then option_map (cons b0) (utf8_decode r)
+      else if (194 <=? b0) && (b0 <=? 223) then
+        match r with
+        | b1 :: r' => if is_cont b1 then option_map (cons ((b0 - 192) * 64 + (b1 - 128))) (utf8_decode r') else None
+        | _ => None
+        end
+      else if (224 <=? b0) && (b0 <=? 239) then
+        match r with
+        | b1 :: b2 :: r' =>
+            if is_cont b1 && is_cont b2 && (negb (b0 =? 224) || (160 <=? b1))
+            then option_map (cons (((b0 - 224) * 64 + (b1 - 128)) * 64 + (b2 - 128))) (utf8_decode r') else None
+        | _ => None
+        end
+      else if (240 <=? b0) && (b0 <=? 244) then
+        match r with
+        | b1 :: b2 :: b3 :: r' =>
+            if is_cont b1 && is_cont b2 && is_cont b3 && (negb (b0 =? 240) || (144 <=? b1)) && (negb (b0 =? 244) || (b1 <=? 143))
+            then option_map (cons ((((b0 - 240) * 64 + (b1 - 128)) * 64 + (b2 - 128)) * 64 + (b3 - 128))) (utf8_decode r') else None
+        | _ => None
+        end
+      else None
+  end.
+
+(* json.detect_encoding: does it answer utf-8 / utf-8-sig? (byte-order marks of UTF-16/32, NUL in the first bytes: other guesses) *)
+Definition guessed_utf8 (b : bytes) : bool :=
+  match b with
+  | 255 :: 254 :: _ | 254 :: 255 :: _ => false
+  | [b0; b1] => negb (b0 =? 0) && negb (b1 =? 0)
+  | b0 :: b1 :: _ :: _ :: _ => negb (b0 =? 0) && negb (b1 =? 0)
+  | _ => true
+  end.
+
+Definition strip_bom (b : bytes) : bytes := match b with 239 :: 187 :: 191 :: r => r | _ => b end.
+
+Definition load_file (b : bytes) : res pv :=
+  if negb (guessed_utf8 b) then Unmodelled else
+  match utf8_decode (strip_bom b) with
+  | None => Err ValueError                       (* UnicodeDecodeError *)
+  | Some s => match parse s with Some v => Ok v | None => Err JSONDecodeError end
+  end.
+
+Definition load_bytes (b : bytes) : option pv := match load_file b with Ok v => Some v | _ => None end.
 
 (* ---- canonical form: tuples become lists, every dict is sorted by key *)
 Fixpoint canon (v : pv) : pv :=
